@@ -307,7 +307,12 @@ class DefGen:
             elif c < 0.74:
                 self.feat.add("nested_def")
                 inner = r.choice(["inner", "helper", "def_inner", "foo"])
-                out.append(Line("code", level, "def %s(p, q=%d):%s" % (inner, r.randint(0, 4), self.maybe_tc())))
+                annotated = r.random() < 0.35
+                if annotated:       # annotations that the body evaluates: they must be the objects the text names
+                    self.feat.add("nested_def_annotations_used")
+                    out.append(Line("code", level, "def %s(p, q: int = %d) -> int:%s" % (inner, r.randint(0, 4), self.maybe_tc())))
+                else:
+                    out.append(Line("code", level, "def %s(p, q=%d):%s" % (inner, r.randint(0, 4), self.maybe_tc())))
                 if r.random() < 0.4:
                     out.append(Line("code", level + 1, r.choice(['"""inner doc"""', "'inner'", '"""inner', ])))
                     if out[-1].b == '"""inner':
@@ -315,7 +320,11 @@ class DefGen:
                 out.append(Line("code", level + 1, "return p * q + %s" % self.expr(env, 1)))
                 if r.random() < 0.3:
                     out.append(Line("code", level + 1, self.comment()))
-                out.append(Line("code", level, "%s = %s(%s)" % (fresh, inner, self.expr(env, 1))))
+                if annotated:
+                    out.append(Line("code", level, "%s = %s.__annotations__['q'](%s(%s)) + (0 if %s.__annotations__['return'] is int else 1000)"
+                                    % (fresh, inner, inner, self.expr(env, 1), inner)))
+                else:
+                    out.append(Line("code", level, "%s = %s(%s)" % (fresh, inner, self.expr(env, 1))))
             elif c < 0.81:
                 self.feat.add("nested_lambda")
                 out.append(Line("code", level, "h_ = lambda p, q=%d: p - q + %s%s" % (r.randint(0, 4), self.atom(env), self.maybe_tc())))
